@@ -37,8 +37,9 @@ def evaluate(exe, a, b, obs=""):
 
 def signature(a, b, verdict):
     """conjunct: which agreement fails; gc: a GeometryCollection is involved; nearIncidence (gc false): beyond shared
-    vertices, a vertex lies within relative 1e-9 of a segment of the other geometry, or two segments overlap collinearly
-    to 1e-9 (exact integer tests in the driver)."""
+    vertices, a vertex lies within rounding distance of a segment of the other geometry WITHOUT being exactly on it, or two
+    segments are collinear to rounding over a positive length without being exactly collinear (exact integer tests in the
+    driver); exactIncidence: such contacts exist but all of them are exact (determinant 0)."""
     t = verdict.split()
     conj = t[1] if len(t) > 1 else "?"
     nov = "?"
@@ -58,6 +59,10 @@ def signature(a, b, verdict):
         pass
     elif group in ("relate-paths", "predicate-vs-matrix", "rectangle"):
         sig["nearIncidence"] = (nov == "1")
+        if nov in ("x", "xo"):
+            # every degenerate contact of the pair is EXACT (determinant 0): rounding cannot be blamed
+            sig["exactIncidence"] = True
+            sig["collinearOverlap"] = (nov == "xo")
     return sig
 
 
